@@ -15,7 +15,7 @@ class A2 {
 }
 class B {
     l: "a"
-    r: "a"
+    _r: "a"
 }
 start = B | A | Z
 '''
